@@ -253,6 +253,89 @@ func checkC13(c *core.Ctx, r *core.Report) {
 				}
 			}
 		}
+		// an element handed to a callback (visit(index, smi)) leaves the enumeration like an append does: the call is
+		// control-dependent, inside the loop that yields that element, on the comparison of THAT element's
+		// organisation with the caller's (a test made once per table on its first element is not a filter)
+		for _, b := range fn.Blocks {
+			lp := core.InnermostLoop(loops, b)
+			if lp == nil {
+				continue
+			}
+			for _, in := range b.Instrs {
+				call, ok := in.(*ssa.Call)
+				if !ok || call.Call.IsInvoke() {
+					continue
+				}
+				switch call.Call.Value.(type) {
+				case *ssa.Parameter, *ssa.FreeVar:
+				default:
+					continue
+				}
+				for _, a := range call.Call.Args {
+					pt, ok := a.Type().Underlying().(*types.Pointer)
+					if !ok {
+						continue
+					}
+					nt, ok := pt.Elem().(*types.Named)
+					if !ok {
+						continue
+					}
+					// the type carries an organisation: it is a tagged struct or embeds one
+					tagged := false
+					var hasTag func(t types.Type, depth int) bool
+					hasTag = func(t types.Type, depth int) bool {
+						if n, ok := t.(*types.Named); ok {
+							for _, tn := range orgFields {
+								if tn == n.Obj().Name() {
+									return true
+								}
+							}
+						}
+						if st, ok := t.Underlying().(*types.Struct); ok && depth < 2 {
+							for i := 0; i < st.NumFields(); i++ {
+								if st.Field(i).Embedded() && hasTag(st.Field(i).Type(), depth+1) {
+									return true
+								}
+							}
+						}
+						return false
+					}
+					tagged = hasTag(nt, 0)
+					if def, ok := a.(ssa.Instruction); !tagged || !ok || !lp.Body[def.Block()] {
+						continue // not an element produced by this loop
+					}
+					nEff++
+					elem := a
+					ofThisElement := func(v ssa.Value) bool {
+						bo, ok := v.(*ssa.BinOp)
+						if !ok || (bo.Op != token.EQL && bo.Op != token.NEQ) {
+							return false
+						}
+						for _, side := range [][2]ssa.Value{{bo.X, bo.Y}, {bo.Y, bo.X}} {
+							if !isOrgParam(side[1]) {
+								continue
+							}
+							if ld, ok := side[0].(*ssa.UnOp); ok {
+								if fa, ok := ld.X.(*ssa.FieldAddr); ok {
+									base := fa.X
+									if inner, ok := base.(*ssa.FieldAddr); ok {
+										base = inner.X // the organisation lives in an embedded struct
+									}
+									if _, isOrg := orgFields[core.FieldOfAddr(fa)]; isOrg && base == elem {
+										return true
+									}
+								}
+							}
+						}
+						return false
+					}
+					if !controlledBy(b, lp, ofThisElement) {
+						bad++
+						r.Violation("GUARD", fmt.Sprintf("%s:effect-under-tenant-filter#%d", name, bad), c.Pos(call.Pos()), "an element of a table shared by all organisations is handed to the caller's callback without its own organisation having been compared with the caller's inside the loop that yields it (a test on another element, or once per table, is not a filter): segments of other tenants reach the result")
+					}
+				}
+			}
+		}
 		if bad == 0 {
 			r.OK("GUARD", construct, c.Pos(fn.Pos()), fmt.Sprintf("%d data-carrying effects, all control-dependent on element.org == caller's org", nEff))
 		}
@@ -800,9 +883,56 @@ func checkC13(c *core.Ctx, r *core.Report) {
 
 	// ---------------------------------------------------------------- (6) an index is deleted for one tenant only
 	{
-		del := c.Fn("pkg/es/writer", "deleteIndex")
+		// the function that deletes an index on a request: deleteIndex, or — when it is written out in its caller —
+		// the function of the package that calls writer.DeleteSegmentsForIndex.  The obligation keys keep the
+		// name of the operation (`writer.deleteIndex:`) wherever its code lives.
+		del := c.TryFn("pkg/es/writer", "deleteIndex")
+		delSeg := c.Obj(pkgWriter, "DeleteSegmentsForIndex")
+		if del == nil {
+			for _, f := range c.RepoFunctions() {
+				if core.FnPkgPath(f) == core.ModPath+"/pkg/es/writer" && f.Parent() == nil && len(callsTo(f, delSeg)) > 0 {
+					del = f
+				}
+			}
+		}
+		if del == nil {
+			panic(core.AnchorError{What: "the function of pkg/es/writer that deletes an index (deleteIndex)"})
+		}
 		orgPs := orgParamsOf(del)
 		n := 0
+		// every deletion is made for a name that is known to be an index of the requesting organisation: the call
+		// lies where IsVirtualTablePresent(name, org) answered true
+		if len(orgPs) > 0 {
+			present := c.Obj("pkg/virtualtable", "IsVirtualTablePresent")
+			var tests []*ssa.Call
+			for _, call := range callsTo(del, present) {
+				if len(call.Call.Args) == 2 && call.Call.Args[1] == ssa.Value(orgPs[0]) {
+					tests = append(tests, call)
+				}
+			}
+			k := 0
+			for _, ci := range core.CallsIn(del) {
+				callee := ci.Common().StaticCallee()
+				if callee == nil || !core.IsRepoPkg(core.FnPkgPath(callee)) {
+					continue
+				}
+				nm := callee.Name()
+				if !(strings.HasPrefix(nm, "Delete") || strings.HasPrefix(nm, "Remove")) {
+					continue
+				}
+				k++
+				guarded := false
+				for _, t := range tests {
+					if core.BoolKnownAt(t, ci.Block()) == core.Yes {
+						guarded = true
+					}
+				}
+				r.Check(guarded, "GUARD", fmt.Sprintf("writer.deleteIndex:%s#%d-only-for-an-index-of-the-requesting-organisation", nm, k), c.Pos(ci.Pos()),
+					"reached only where IsVirtualTablePresent(name, organisation) answered true",
+					fmt.Sprintf("%s is called for a name that was not found to be an index of the requesting organisation: a request that names another organisation's index next to an own one deletes the other organisation's data (the deleting functions select by name)", nm))
+			}
+			r.Floor("GUARD", "deleting calls of the index deletion that need the presence test", k, 4)
+		}
 		if len(orgPs) == 0 {
 			r.Undecided("DEPENDS", "writer.deleteIndex:tenant-parameter", c.Pos(del.Pos()), "deleteIndex has no organisation parameter")
 		} else {
